@@ -27,6 +27,7 @@ RULE = ("every numeric option / constant over its boundary lattice (below, "
         "distinct = (setting(s), lattice position(s))")
 RULE += ("  Also: lattice positions 'fraction' (0.5 for sizes / budgets) and 'nan'; unknown constant names equal to internal parameter names; nb_points below n+1 combined with exits during the initial sampling (a ValueError raised only after user functions were called is a violation); nb_points against the number of FREE variables; all-fixed / inconsistent bounds with invalid settings; the same options dict object reused for two calls.")
 RULE += (" Lattice position 'inf'; family narrow_box: the radii the framework works with after the documented adjustment to the bounds.")
+RULE += (' Family debug_sizes: debug=True must not change which exception an invalid size raises.')
 ASSUMPTIONS = [
     "the documented table (domains, defaults, relations) is transcribed "
     "from the minimize docstring, settings.py and the error messages",
